@@ -31,17 +31,26 @@ def correspond(ctx):
         N = PR.cdim(dims)
         n = rng.randint(1, min(4, N)); p = rng.randint(0, min(2, n - 1))
         pr = None
+        # every fourth system: free variables (exactly zero columns of G, zero rows / columns of P, at any position) fixed by the equality
+        # constraints: Rank(A) = p and Rank([P; A; G]) = n hold although G'W^-2 G is exactly singular ('l' cone, so that kkt_chol2 takes part)
+        free = []
+        if it % 4 == 3:
+            dims = {'l': rng.randint(2, 6), 'q': [], 's': []}; N = dims['l']
+            n = rng.randint(2, min(5, N + 1)); free = rng.sample(range(n), rng.randint(1, min(2, n - 1))); p = rng.randint(len(free), n - 1)
         for _ in range(30):
             Gc = [PR.sym_vector(rng, dims) for _ in range(n)]
+            for j in free: Gc[j] = [0.0] * N
             Ac = [[PR.rint(rng) for _ in range(p)] for _ in range(n)]
-            if PR.rank_cols(Gc, [[] for _ in range(n)]) == n and PR.rank_rows(Ac, p) == p: break
+            if PR.rank_cols(Gc, Ac if free else [[] for _ in range(n)]) == n and PR.rank_rows(Ac, p) == p: break
         else: continue
         G = matrix([x for col in Gc for x in col], (N, n), 'd'); A = matrix([x for col in Ac for x in col], (p, n), 'd')
         sp = rng.random() < 0.4
         Gm, Am = (sparse(G), sparse(A)) if sp else (G, A)
         hasQS = bool(dims['q'] or dims['s'])
         useP = rng.random() < 0.5; junkP = rng.random() < 0.5
-        B = matrix([PR.rint(rng, 2) for _ in range(n * n)], (n, n)); P = B.T * B if useP else None
+        B = matrix([PR.rint(rng, 2) for _ in range(n * n)], (n, n))
+        for j in free: B[:, j] = 0.0
+        P = B.T * B if useP else None
         names = ['ldl', 'ldl2', 'chol'] + ([] if hasQS else ['chol2']) + ([] if useP else ['qr'])
         facs = {}
         for nm in names:
@@ -57,7 +66,7 @@ def correspond(ctx):
             if rng.random() < 0.5:
                 # update with a small interior step (as the solvers do): s := W^{-T} s~, z := W z~ for scaled points near lambda
                 pass
-            sols = {}
+            sols = {}; failed = []
             rhs0 = (matrix([PR.rint(rng) for _ in range(n)], (n, 1), 'd'), matrix([PR.rint(rng) for _ in range(p)], (p, 1), 'd'),
                     matrix(PR.sym_vector(rng, dims), (N, 1), 'd'))
             for nm, fac in facs.items():
@@ -71,7 +80,7 @@ def correspond(ctx):
                     else:
                         f = fac(W, P) if useP else fac(W)
                 except ArithmeticError:
-                    continue
+                    failed.append(nm); continue
                 for rep in range(rng.randint(1, 2)):
                     bx = matrix([PR.rint(rng) for _ in range(n)], (n, 1), 'd'); by = matrix([PR.rint(rng) for _ in range(p)], (p, 1), 'd')
                     bz = matrix(PR.sym_vector(rng, dims), (N, 1), 'd')
@@ -94,6 +103,10 @@ def correspond(ctx):
                                       (nm, res / scale_, dims, 'sparse' if sp else 'dense', step), {'dims': dims, 'solver': nm, 'sparse': sp, 'step': step})
                     if rep == 0: sols[nm] = (list(x), list(y), +zz)
             distinct.add((tuple(sorted(dims.items(), key=str)) if False else str(dims), sp, useP, step))
+            if free and failed and sols:
+                ctx.violation('c07:factor-fails:free-variables:' + failed[0], 'kkt_%s raised ArithmeticError on a system with exactly zero columns %s of G (and P) that satisfies the rank '
+                              'assumptions (kkt_%s solves it), dims %s, %s, history step %d' % (failed[0], free, sorted(sols)[0], dims, 'sparse' if sp else 'dense', step),
+                              {'dims': dims, 'solver': failed[0], 'sparse': sp, 'step': step, 'G': Gc, 'A': Ac, 'free': free})
             # all solvers agree on the same system
             ref = None
             for nm, (sx, sy, sz) in sols.items():
